@@ -701,10 +701,12 @@ func (e *env) exec(op Op) result {
 	}
 }
 
-const hangTimeout = 60 * time.Second // liveness guard, never part of a pass verdict
+const hangTimeout = 90 * time.Second // liveness guard, never part of a pass verdict
 
 func (e *env) call(op Op) (r result) {
-	ctx, cancel := context.WithTimeout(context.Background(), 15*time.Second) // liveness guard only
+	// Liveness guard only; longer than the client's own 20 s back-off budget so
+	// that a retry loop ends with the client's error rather than this deadline.
+	ctx, cancel := context.WithTimeout(context.Background(), 40*time.Second)
 	defer cancel()
 	defer func() {
 		if p := recover(); p != nil {
@@ -1437,8 +1439,8 @@ func main() {
 		"max_depth":                     maxDepth,
 		"alphabet_size":                 len(ops),
 		"rule": "BFS over call sequences of rawkv.Client from the empty store on every initial layout (all subsets of split keys {b,c}; 2 stores); every state is expanded by the whole alphabet, each call without deviation and with every script of <= F topology changes " +
-			"(split at a pool key / merge target with left or right neighbour / leader transfer) placed before any RPC of the call's observed trace; states = distinct (model, region start keys, faults used); transitions = distinct (state, call, script) executed on the real client; " +
-			"every transition's result and the observation set (4 Gets, unbounded Scan, store dump) are compared with the sorted-map model; non-trivial = the call needed >= 2 store RPCs (several regions / partial requests / retries) or carried a deviation",
+			"(split of the RPC's target region at a pool key / merge of the target with its left or right neighbour / leader transfer of the target, with TiKV's epoch rules) placed before any RPC of the call's observed trace, scripts enumerated depth-first from the traces; states = distinct (model, region start keys, faults used); transitions = distinct (state, call, script) executed on the real client; " +
+			"every transition's result is compared with the sorted-map model, and after every call that writes or carried a deviation the observation set (4 Gets, unbounded Scan, store dump) is compared too; non-trivial = the call needed >= 2 store RPCs (several regions / partial requests / retries) or carried a deviation",
 		"samples": samples.List(),
 		"bounds":  map[string]any{"depth": depth, "faults": budget, "keys": pool, "initial_layouts": layouts, "values": []string{"x1", fmt.Sprintf("%d-byte blob", len(bigVal))}, "workers": workers},
 	}, []string{
